@@ -11,7 +11,7 @@ from ..core import SubCheck, Violation, cut, require
 from ..oracles import tables as otab
 from ..oracles.geometry import R_EARTH
 from ..rng_script import ScriptExhausted, scripted
-from ..strategies import bfloat, log_uniform, near, ulp_step, unit_closed
+from ..strategies import bfloat, block_edge_sizes, log_uniform, near, ulp_step, unit_closed
 from .c04 import BETA_MAX, BETA_MIN, B_NODES, log_e_st, version_st
 
 PROPERTY_ID = "C07"
@@ -219,6 +219,48 @@ def body_pairs(case):
     return labels
 
 
+def _large_cases(tier):
+    import os
+
+    seed = int(os.environ.get("VERIF_SEED", "1") or "1")
+    for n in block_edge_sizes(tier):
+        yield {"n": int(n), "seed": seed, "cut": int((seed * 7919 + n // 3) % n)}
+
+
+def body_large(case):
+    """One altDec call on a batch whose length is ON or just beyond a block length: every element follows the
+    formula (vectorised reference), and the call equals the two-part evaluation bit for bit."""
+    from nuspacesim.simulation.eas_optical.eas import EAS
+
+    n = case["n"]
+    rng = np.random.default_rng(case["seed"] * 1000003 + n)  # enumeration parameters only; part of the deterministic case
+    gamma = 10.0 ** rng.uniform(3.3, 11.7, n)
+    beta = rng.uniform(0.0, BETA_MAX, n)
+    u = rng.uniform(0.0, 1.0, n)
+    u[u == 0.0] = 0.5
+    u[:: max(1, n // 50)] = 1.0
+    tb = np.sqrt(1.0 - 1.0 / gamma**2)
+    eas = EAS(_config())
+    snap = [a.tobytes() for a in (beta, tb, gamma, u)]
+    with cut(f"EAS.altDec({n} events)"):
+        alt, length = [np.asarray(x) for x in eas.altDec(beta, tb, gamma, u)]
+    require([a.tobytes() for a in (beta, tb, gamma, u)] == snap, f"altDec modified one of its input arrays ({n} events)")
+    require(alt.shape == (n,) and length.shape == (n,), f"altDec returned shapes {alt.shape}, {length.shape} for {n} events")
+    ref_len = -gamma * tb * CTAU * np.log(u)
+    bad = np.where(~(np.abs(length - ref_len) <= 1e-12 * np.abs(ref_len)))[0]
+    require(bad.size == 0, f"decay length != -gamma beta c tau0 ln(u) for {bad.size} of {n} events of one call (first at index {int(bad[0]) if bad.size else -1}: {length[bad[:1]].tolist()} vs {ref_len[bad[:1]].tolist()})")
+    ref_alt = alt_ref(ref_len, beta)
+    bad = np.where(~(np.abs(alt - ref_alt) <= 4e-12 * R_EARTH + 1e-12 * ref_alt))[0]
+    require(bad.size == 0, f"decay altitude differs from the vector construction for {bad.size} of {n} events of one call (first at index {int(bad[0]) if bad.size else -1})")
+    k = case["cut"]
+    if 0 < k < n:
+        with cut(f"EAS.altDec in two parts [0:{k}] [{k}:{n}]"):
+            a1, l1 = [np.asarray(x) for x in eas.altDec(beta[:k].copy(), tb[:k].copy(), gamma[:k].copy(), u[:k].copy())]
+            a2, l2 = [np.asarray(x) for x in eas.altDec(beta[k:].copy(), tb[k:].copy(), gamma[k:].copy(), u[k:].copy())]
+        require(np.concatenate([a1, a2]).tobytes() == alt.tobytes() and np.concatenate([l1, l2]).tobytes() == length.tobytes(), f"altDec on {n} events differs from the evaluation of [0:{k}] and [{k}:{n}] separately")
+    return {f"n={n}", "power_of_two" if n & (n - 1) == 0 else "with_tail"}
+
+
 def _nt(labels):
     return bool(labels & {"beta==42deg", "min_energy_row", "u_end", "angle_end", "below_min_angle"})
 
@@ -291,5 +333,14 @@ SUBCHECKS = [
         {"quick": 8, "thorough": 200},
         doc="results handed back to the caller are identical with and without plotting/storing options (shared with C11/options, restricted to this stage)",
         shrink=False,
+    ),
+    SubCheck(
+        "large_batch",
+        None,
+        body_large,
+        lambda labels: True,
+        {"quick": 1},
+        doc="altDec on batches whose length is on / just beyond block lengths (2^12..2^22 quick, ..2^24 and 10^7 thorough): every element vs the vectorised formula; whole == two parts",
+        exhaustive=_large_cases,
     ),
 ]
